@@ -2,6 +2,14 @@
 FIELD_TB = ["section hypothesis field_theory (theorems hold for every field; the executable instance is Z mod p, Base/Zp.v)"]
 
 PROPS = {
+    "C08": {
+        "cmd": "c08",
+        "timeout": 1200,
+        "trusted_base": ["verdicts of gnark-crypto routines (subgroup tests, Pedersen / KZG batch verification, pairing) are oracle bits of the shape model",
+                         "gnark-crypto point decoders are modelled at the framing level only (witness decoder byte-exact)",
+                         "byte-level decoding runs in a child process under ulimit -v; a killed child is the class 'crash'"],
+        "assumptions": ["verifying keys come from Setup (committed indices refer to public inputs)"],
+    },
     "C09": {
         "cmd": "c09",
         "timeout": 900,
